@@ -95,15 +95,18 @@ def check_case(case):
     info = {}
     try:
         for b in case.get("batches", []):
-            run.iterate(b)
+            ok = run.iterate(b)
             observe(run, run.solver.GetResults(), "after DoGlobalIteration", moments, vs, case)
+            if not ok:
+                break
         sol = run.solve()
         observe(run, sol, "returned Solution", moments, vs, case)
         observe(run, run.solver.GetResults(), "GetResults after Solve", moments, vs, case)
     except BaseException as e:                 # noqa
         err = repr(e)
-    if err or run.printed_exception or run.runaway:
-        vs.append(oc.violation(PROP, case, "no-internal-error", {"raised": err, "printed_marker": run.printed_exception}))
+    if run.trouble(err):
+        vs.append(oc.violation(PROP, case, "no-internal-error", run.trouble(err)))
+    info["float_collapse"] = bool(run.collapsed)
     g = run.glog()
     zs = [e[2] for e in g]
     changes = sum(1 for i in range(1, len(zs)) if zs[i] < min(zs[:i]))
@@ -113,6 +116,8 @@ def check_case(case):
 
 
 def gen(r):
+    if r.random() < 0.03:
+        return oc.collapse_prone_case(r)
     n = r.choice((1, 1, 2, 2, 3, 4, 5))
     u = r.random()
     spec = None
@@ -133,7 +138,7 @@ def gen(r):
 
 
 def run(tier, r):
-    ncases = 900 if tier == "quick" else 14000
+    ncases = 1800 if tier == "quick" else 24000
     vs, stats, samples, keys = [], {}, [], set()
     nontrivial = explored = 0
     for i in range(ncases):
@@ -144,6 +149,7 @@ def run(tier, r):
         oc.bump(stats, "dim%d" % case["n"])
         oc.bump(stats, "kind_" + case["spec"]["kind"])
         oc.bump(stats, "moments_tested", info.get("moments", 0))
+        oc.bump(stats, "float_collapse_stops", 1 if info.get("float_collapse") else 0)
         oc.bump(stats, "trials_total", info.get("trials", 0))
         oc.bump(stats, "runs_with_tie_at_min", 1 if info.get("tie_at_min") else 0)
         oc.bump(stats, "best_changes", info.get("best_changes", 0))
